@@ -63,6 +63,39 @@ impl Read for Chunks {
     }
 }
 
+// requests go into a sink: what is RECEIVED must not depend on whether (pipelined) requests are written in between
+impl io::Write for Chunks {
+    fn write(&mut self, buf: &[u8]) -> io::Result<usize> {
+        Ok(buf.len())
+    }
+    fn flush(&mut self) -> io::Result<()> {
+        Ok(())
+    }
+}
+
+impl tokio::io::AsyncWrite for Chunks {
+    fn poll_write(self: Pin<&mut Self>, _: &mut Context<'_>, b: &[u8]) -> Poll<io::Result<usize>> {
+        Poll::Ready(Ok(b.len()))
+    }
+    fn poll_flush(self: Pin<&mut Self>, _: &mut Context<'_>) -> Poll<io::Result<()>> {
+        Poll::Ready(Ok(()))
+    }
+    fn poll_shutdown(self: Pin<&mut Self>, _: &mut Context<'_>) -> Poll<io::Result<()>> {
+        Poll::Ready(Ok(()))
+    }
+}
+
+thread_local! {
+    /// the case asks for a request to be written before every receive call (a pipelining user of the protocol layer)
+    static SENDS: std::cell::Cell<bool> = const { std::cell::Cell::new(false) };
+}
+fn sends() -> bool {
+    SENDS.with(|s| s.get())
+}
+fn ping() -> mpd_client::protocol::command::Command {
+    mpd_client::protocol::command::Command::new("ping")
+}
+
 impl AsyncRead for Chunks {
     fn poll_read(mut self: Pin<&mut Self>, cx: &mut Context<'_>, buf: &mut ReadBuf<'_>) -> Poll<io::Result<()>> {
         if self.held.load(std::sync::atomic::Ordering::SeqCst) && self.handed >= self.hold_after {
@@ -172,6 +205,9 @@ fn run_receive_sync(chunks: Vec<Vec<u8>>, maxcalls: usize) -> (Vec<Value>, Strin
     let mut terminal = false;
     hooks_begin();
     for _ in 0..maxcalls {
+        if sends() {
+            let _ = catch_unwind(AssertUnwindSafe(|| conn.send(ping())));
+        }
         let r = catch_unwind(AssertUnwindSafe(|| conn.receive()));
         let (t, v) = match r {
             Ok(r) => outcome(r),
@@ -237,6 +273,9 @@ fn run_receive_async(chunks: Vec<Vec<u8>>, maxcalls: usize, pend: bool, cancel_a
         }
     }
     for _ in 0..maxcalls {
+        if sends() {
+            let _ = catch_unwind(AssertUnwindSafe(|| rt.block_on(conn.send(ping()))));
+        }
         let r = catch_unwind(AssertUnwindSafe(|| rt.block_on(conn.receive())));
         let (t, v) = match r {
             Ok(r) => outcome(r),
@@ -276,6 +315,7 @@ pub fn bytes_of(v: &Value) -> Vec<u8> {
 }
 
 pub fn run_case(c: &Value) -> Value {
+    SENDS.with(|s| s.set(c["sends"].as_bool().unwrap_or(false)));
     let stream = bytes_of(&c["stream"]);
     let cuts: Vec<usize> = c["cuts"].as_array().map(|a| a.iter().map(|x| x.as_u64().unwrap_or(0) as usize).collect()).unwrap_or_default();
     let flavour = c["flavour"].as_str().unwrap_or("sync");
@@ -411,13 +451,23 @@ fn lean_run(flavour: &str, chunks: Vec<Vec<u8>>, maxcalls: usize, rt: &tokio::ru
             Ok(c) => c,
             Err(_) => return ("0".into(), 0, "connect_failed".into(), String::new(), false),
         };
-        drive!(conn, conn.receive())
+        drive!(conn, {
+            if sends() {
+                let _ = conn.send(ping());
+            }
+            conn.receive()
+        })
     } else {
         let mut conn = match rt.block_on(AsyncConnection::connect(rd)) {
             Ok(c) => c,
             Err(_) => return ("0".into(), 0, "connect_failed".into(), String::new(), false),
         };
-        drive!(conn, rt.block_on(conn.receive()))
+        drive!(conn, {
+            if sends() {
+                let _ = rt.block_on(conn.send(ping()));
+            }
+            rt.block_on(conn.receive())
+        })
     };
     (fnv(&c).to_string(), nresp, last, again, hang)
 }
@@ -425,6 +475,7 @@ fn lean_run(flavour: &str, chunks: Vec<Vec<u8>>, maxcalls: usize, rt: &tokio::ru
 /// One large stream cut in two at EVERY position lo, lo+step, ... < hi (an exact internal threshold is hit by exactly one of them):
 /// one `bigcase` record per DISTINCT outcome, with the number of cuts that produced it and the first such cut.
 pub fn run_sweep(c: &Value) -> Vec<Value> {
+    SENDS.with(|s| s.set(c["sends"].as_bool().unwrap_or(false)));
     let stream = bytes_of(&c["stream"]);
     let flavour = c["flavour"].as_str().unwrap_or("sync");
     let lo = c["sweep"]["lo"].as_u64().unwrap_or(1) as usize;
